@@ -53,9 +53,15 @@ if __name__ == '__main__':
     checks, na = [], []
     table = dict(CHECKS)
     table.update(extra.get('checks', {}))
+    SUFFIX = (' A slice of the same workload is repeated in further builds of the same sources - strict -std=c99, -fshort-enums, -DNDEBUG, '
+              '-funsigned-char, without the compiler\'s byte-order macros, a freestanding 32-bit (ILP32) executable and clang MemorySanitizer '
+              '(whichever apply to the property; listed in the evidence rule) - and every binding thunk counts the evaluations of each '
+              'argument of the API call it makes (a function evaluates each exactly once).')
     for p in props:
         if p in reg and p in table:
-            t = table[p]
+            t = dict(table[p])
+            if t['engine'] in ('fieldmon', 'vssmon', 'canmon') and 'ILP32' not in t['text']:
+                t['text'] = t['text'].rstrip() + SUFFIX
             checks.append(dict(property_id=p, quick_cmd='./check %s --tier quick' % p, thorough_cmd='./check %s --tier thorough' % p,
                                evidence_file='evidence/%s.json' % p, replay_cmd_template='./check %s --replay {path}' % p,
                                engine=t['engine'], level_claimed=dict(category=t.get('category', 'exploration'), text=t['text'],
